@@ -111,7 +111,7 @@ pub fn run(run: &Run) {
         }
         r
     });
-    run.random("random", run.cases(400_000, 10_000_000), 0.5, strategy, check);
+    run.random("random", run.cases(2_000_000, 40_000_000), 0.5, strategy, check);
 }
 
 pub fn replay(_section: &str, case: &Value) -> Option<CheckResult> {
